@@ -1,3 +1,4 @@
+import Oidc.Shapes
 import Oidc.Proofs.Strings
 import Oidc.Proofs.Handler2
 import Oidc.Proofs.Handler5
@@ -55,5 +56,9 @@ theorem callback_error_body (c : Cfg) (e : Env) (r : Req) (v : View) (h : r.qErr
 /-! non-vacuity -/
 example : htmlEscape "<script>alert('x')</script>".toList = "&lt;script&gt;alert(&#39;x&#39;)&lt;/script&gt;".toList := by decide
 example : htmlEscape "a&b\"c".toList = "a&amp;b&#34;c".toList := by decide
+
+/-! obligation against the regenerated shapes: `sendErrorResponse` still has the steps the model was written against — JSON
+    bodies through `encoding/json`, the HTML page through `html.EscapeString` and the pinned template (`Oidc/Shapes.lean`) -/
+theorem shape_sendErrorResponse_ok : Oidc.Shapes.Shape_sendErrorResponse := by unfold Oidc.Shapes.Shape_sendErrorResponse; rfl
 
 end Oidc.Props.C16
